@@ -14,7 +14,7 @@
      [40..50] tx_length  [51..55] tx_sequence_number  [56..59] tx_endpoint_number  [60] tx_direction
      [61] handshakes_out.send_nrdy  [62] handshakes_out.send_erdy  [63..69] handshakes_out.endpoint_number
 
-   Parameters: mps = max_packet_size in bytes (a multiple of 4, 8 <= mps <= 1024), ep = endpoint number,
+   Parameters: mps = max_packet_size in bytes (a multiple of 4, 4 <= mps <= 1024), ep = endpoint number,
    sb = SEQUENCE_NUMBER_BITS (5 in LUNA). *)
 From Coq Require Import NArith List Bool.
 Import ListNotations.
